@@ -95,7 +95,7 @@ func leafPkg(n string) string {
 var purePkgs = map[string]string{
 	"strconv": "S7", "bytes": "S7", "strings": "S7", "sort": "S7", "fmt": "S7 (Sprintf/Errorf/Sprint)", "errors": "S7", "crypto/md5": "S7",
 	"crypto/sha256": "S7", "encoding/hex": "S7", "encoding/binary": "S7", "io": "S7 (in-memory readers/errors)", "hash": "S7", "unicode/utf8": "S7",
-	"math/bits": "S7", "sync": "sync.Once / pools guarding one-time table construction", "golang.org/x/crypto/cryptobyte": "pure byte-string parser", "unicode": "S7", "slices": "S7", "maps": "S7", "math": "S7",
+	"math/bits": "S7", "sync": "sync.Once / pools guarding one-time table construction", "golang.org/x/crypto/cryptobyte": "pure byte-string parser", "unicode": "S7", "slices": "S7", "cmp": "S7 (ordered comparison helpers used by slices.Sort)", "maps": "S7", "math": "S7",
 	"crypto": "hash registry constants", "crypto/tls": "constants / pure helpers", "crypto/x509": "not expected", "internal/byteorder": "S7", "reflect": "type switches in fmt", "bufio": "in-memory", "golang.org/x/crypto/cryptobyte/asn1": "constants",
 	"crypto/subtle": "S7", "crypto/hmac": "S7", "crypto/sha512": "S7", "crypto/sha1": "S7", "golang.org/x/crypto/hkdf": "S7", "crypto/cipher": "S7", "crypto/aes": "S7", "golang.org/x/crypto/chacha20poly1305": "S7",
 	"crypto/ecdh": "key parsing", "math/big": "S7 (arbitrary-precision arithmetic)", "github.com/quic-go/quic-go/quicvarint": "pure varint encoder", "crypto/elliptic": "constants", "crypto/internal/boring": "unused", "runtime": "panics/assertions", "builtin": "",
